@@ -355,7 +355,7 @@ func init() {
 		Anchored: []string{").Memset", ").Zero", "memsetIter", "zeroIter", "copyDense", "CopyIter", "tensor.Copy", ").Clone", ").Materialize", ").CopyTo", "RequiresIterator", "IsMaterializable", "sliceInto", ").Slice", "native.", "FromMat64", "ToMat64", "convFromFloat64s"},
 		Bounds: map[string]interface{}{"parents": "(5), (3,4), (4,3), (2,3,2) quick; + (4,4), (2,2,3), (3,2,2,2) thorough; row- and column-major", "views": "one sliced axis with (start,end,step) enumerated by the solver over all valid triples with step<=3 (outside the open C02 findings), lazy transpose, slice of a lazy transpose",
 			"writes": "Memset, Zero, SetAt sweep, Copy into the view (source layouts C,T,S), unsafe Neg, unsafe Add tensor/scalar", "data": "all parent cells (sentinels), written values and source operands symbolic",
-			"copies": "Clone, Materialize, Copy, CopyTo over layouts C,F,T,S,SS,M (+ lazily transposed), element sizes 1-16 and string", "native": "package native Vector/Matrix/Tensor3/Select x {U8,I32,F64,C128,Str} (all 16 types thorough) x layouts C,F,T,S,SS(,M) on shapes (3),(2,3),(3,1),(2,3,2),(2,2,3) (+7 thorough incl. rank 4 and scalar)", "frommat64": "FromMat64 x 12 real numeric target types x safe/unsafe on (2,2) (+ (1,3),(3,2) thorough), matrix data symbolic float64; float->integer conversions outside the target range are implementation-defined in Go and assumed away, NaN/Inf -> 0 as convFromFloat64s documents", "not_covered": "the reflect-based native.Vector/Matrix/Tensor3 of native/generic.go; complex targets of FromMat64"},
+			"copies": "Clone, Materialize, Copy, CopyTo over layouts C,F,T,S,SS,M (+ lazily transposed), element sizes 1-16 and string", "native": "package native typed Vector/Matrix/Tensor3/Select and the reflect-based generic Vector/Matrix/Tensor3 x {U8,I32,F64,C128,Str} (all 16 types thorough) x layouts C,F,T,S,SS(,M) on shapes (3),(2,3),(3,1),(2,3,2),(2,2,3) (+7 thorough incl. rank 4 and scalar)", "frommat64": "FromMat64 x 12 real numeric target types x safe/unsafe on (2,2) (+ (1,3),(3,2) thorough), matrix data symbolic float64; float->integer conversions outside the target range are implementation-defined in Go and assumed away, NaN/Inf -> 0 as convFromFloat64s documents", "not_covered": "complex targets of FromMat64"},
 		Instances: func(tier string, seed int64) []Instance {
 			var out []Instance
 			type par struct {
@@ -500,7 +500,7 @@ func init() {
 		ID:       "C06",
 		Anchored: []string{"tensor.Add", "tensor.Sub", "tensor.Mul", "tensor.Div", "tensor.Mod", "tensor.Pow", "MinBetween", "MaxBetween", "binaryCheck", "prepDataVV", "prepDataVS", "prepDataSV", "handleFuncOpts", "scalarToHeader", "execution.E)", "execution.Vec", "execution.Add", "execution.Sub", "execution.Mul", "execution.Div", "execution.Mod", "execution.Pow", "vecf64", "vecf32"},
 		Bounds: map[string]interface{}{"elements_and_scalar": "symbolic over the full range of the dtype (bit-vectors wrap; floats in the FP theory incl. NaN, +-Inf, +-0)",
-			"matrix_quick": "every op x 14 numeric dtypes x {TT,TS,ST} on contiguous (2,2); every op x dtype on the one-element shapes () (1) (1,1); all 25 operand layout pairs {C,T,S,SS,M}^2 for {int64,float64,int8,complex128}x{Add,Sub,Div,Mul} on (2,3); function and method entry points",
+			"matrix_quick":    "every op x 14 numeric dtypes x {TT,TS,ST} on contiguous (2,2); every op x dtype on the one-element shapes () (1) (1,1); all 25 operand layout pairs {C,T,S,SS,M}^2 for {int64,float64,int8,complex128}x{Add,Sub,Div,Mul} on (2,3); function and method entry points",
 			"matrix_thorough": "every op x dtype x form x layout pair on (2,2),(2,3),(3),(2,1,2),(1,3)", "transcendental": "Pow/Mod on floats and complex Pow/Div are uninterpreted functions of the element type's math routine (exact small-exponent identities accepted for float Pow)",
 			"int_mod_zero": "assumed away (Go's % panics; not defined by the statement); int Div by zero: error without panic is asserted", "float_minmax_nan": "assumed away"},
 		Instances: func(tier string, seed int64) []Instance {
@@ -610,7 +610,7 @@ func init() {
 		Anchored: []string{"tensor.Lt", "tensor.Gt", "tensor.Lte", "tensor.Gte", "tensor.ElEq", "tensor.ElNe", "StdEng).Lt", "StdEng).Gt", "StdEng).ElEq", "StdEng).ElNe", "StdEng).Lte", "StdEng).Gte", "execution.Lt", "execution.Gt", "execution.Eq", "execution.Ne", "execution.Lte", "execution.Gte", "Same"},
 		Bounds: map[string]interface{}{"elements_and_scalar": "symbolic over the whole dtype range (NaN, equal pairs and extremes are inside)",
 			"matrix_quick": "6 comparisons x 17 dtypes (ordered ops on ordered types; equality on all comparable types incl. bool, complex, string, uintptr) x {TT,TS,ST} x {bool, same-type, unsafe, reuse-bool, reuse-same} on contiguous (2,2) (rotating variants), one-element shapes, and layout pairs for int64/float64/int8",
-			"strings": "ElEq/ElNe with symbolic strings; Lt..Gte on strings are not executed (ordering of symbolic strings is not encoded)"},
+			"strings":      "ElEq/ElNe with symbolic strings; Lt..Gte on strings are not executed (ordering of symbolic strings is not encoded)"},
 		Instances: func(tier string, seed int64) []Instance {
 			var out []Instance
 			variants := []string{"bool", "same", "unsafe", "reuse-bool", "reuse-same"}
@@ -688,7 +688,7 @@ func init() {
 		Anchored: []string{"tensor.Neg", "tensor.Inv", "tensor.Square", "tensor.Cube", "tensor.Abs", "tensor.Sign", "tensor.Clamp", "tensor.Sqrt", "tensor.Cbrt", "tensor.InvSqrt", "tensor.Exp", "tensor.Log", "tensor.Tanh", "unaryCheck", "prepDataUnary", ").Apply", "StdEng).Map", "execution.Map", "execution.Neg", "execution.Abs", "execution.Clamp", "execution.Sign", "execution.Sqrt", "execution.Inv", "execution.Square", "execution.Cube"},
 		Bounds: map[string]interface{}{"elements": "symbolic over the whole dtype range; clamp bounds symbolic with lo<=hi, not NaN", "exact": "Neg, Inv, Square, Cube, Abs, Sign, Clamp, Sqrt, InvSqrt are decided exactly (bit-vector / IEEE)",
 			"transcendental": "Exp, Log, Log2, Log10, Tanh, Cbrt and complex Sqrt are uninterpreted functions of the element type's routine (float32: math32.F(x) or float32(math.F(float64(x))) accepted)",
-			"matrix_quick": "15 ops x 14 numeric dtypes on contiguous (2,2) safe mode; operand layouts {C,T,S,SS,M} x modes {safe,unsafe,reuse,incr,reuse==operand} for float64/int/int8/float32; Apply with an uninterpreted user function", "int_inv_zero": "assumed away (1/0 panics in Go)"},
+			"matrix_quick":   "15 ops x 14 numeric dtypes on contiguous (2,2) safe mode; operand layouts {C,T,S,SS,M} x modes {safe,unsafe,reuse,incr,reuse==operand} for float64/int/int8/float32; Apply with an uninterpreted user function", "int_inv_zero": "assumed away (1/0 panics in Go)"},
 		Instances: func(tier string, seed int64) []Instance {
 			var out []Instance
 			add := func(dt, op string, sh []int, la, mode, ld string) {
@@ -1265,7 +1265,7 @@ func init() {
 			"FlatMaskedEdges", "FlatNotMaskedEdges", ").Filled", ").FilledInplace", "FlatMaskedIterator", "transposeMask", ").MaskAt", ").Slice", "Iter"},
 		Bounds: map[string]interface{}{"predicates": "10 predicate forms (Equal, NotEqual, Greater, GreaterEqual, Less, LessEqual, Inside, Outside, Values with and without atol) x 12 ordered dtypes x soft/hard x with/without a prior mask; data, thresholds and every prior mask bit symbolic (3 elements)",
 			"inspection": "every mask over <=6 (quick) / <=8 (thorough) elements (each bit symbolic) on shapes (), (4), (3,1), (1,3), (2,3), (2,2,2): counts, any/all (global and per axis), contiguous runs, edges, Filled/FilledInplace with symbolic data and fill value",
-			"movement": "mask follows elements through lazy T, physical Transpose (also mask storage order) and slicing with solver-enumerated ranges", "operations": "Add/Sub/Mul on masked operands: positions valid in all operands hold the unmasked value"},
+			"movement":   "mask follows elements through lazy T, physical Transpose (also mask storage order) and slicing with solver-enumerated ranges", "operations": "Add/Sub/Mul on masked operands: positions valid in all operands hold the unmasked value"},
 		Instances: func(tier string, seed int64) []Instance {
 			var out []Instance
 			preds := []string{"Equal", "NotEqual", "Greater", "GreaterEqual", "Less", "LessEqual", "Inside", "Outside", "Values2", "Values3"}
@@ -1346,7 +1346,7 @@ func init() {
 		Anchored: []string{").Inner", ").MatVecMul", ").MatMul", ").Outer", ").TensorMul", ").Trace", "tensor.Dot", "tensor.Contract", "tensor.MatMul", "tensor.MatVecMul", "tensor.Inner", "tensor.Outer", "StdEng).Dot", "StdEng).Inner", "StdEng).MatVecMul", "StdEng).MatMul",
 			"StdEng).Outer", "StdEng).Trace", "handleReuse", "handleIncr"},
 		Bounds: map[string]interface{}{"arithmetic": "ring mode: float and complex elements are mathematical integers, + - x exact (this is the statement's 'exactly for integer-valued inputs' clause; rounding for non-integer inputs is outside the claim)",
-			"blas": "gonum's Sdot/Ddot/C,Zdotu, gemv, gemm, ger(u) replaced by the reference semantics of the row-major BLAS interface including argument checks (bad leading dimension, short slices, illegal transpose -> panic)",
+			"blas":   "gonum's Sdot/Ddot/C,Zdotu, gemv, gemm, ger(u) replaced by the reference semantics of the row-major BLAS interface including argument checks (bad leading dimension, short slices, illegal transpose -> panic)",
 			"shapes": "quick: dims<=3 vectors, dims<=2..3 matrices, rank-3 contractions with dims<=2; thorough: dims<=3 (vectors <=4), rank 3-4 contractions", "layouts": "C, lazily transposed, column-major, sliced view, step-sliced view, materialised - per operand",
 			"modes": "safe, reuse, incr"},
 		Assume: []string{"BLAS reference model instead of gonum's implementation (its own arithmetic and assembly kernels are outside the claim)"},
@@ -1448,6 +1448,21 @@ func init() {
 					}
 				}
 			}
+			// operands that do not conform must be refused (error or panic), in both orders
+			for _, mm := range [][3]interface{}{{"Inner", []int{2}, []int{3}}, {"Inner", []int{3}, []int{2}}, {"Inner", []int{2, 1}, []int{3}}, {"Inner", []int{1, 2}, []int{1, 3}}, {"Inner", []int{3}, []int{1, 2}},
+				{"MatVecMul", []int{2, 3}, []int{2}}, {"MatVecMul", []int{2, 3}, []int{4}}, {"MatMul", []int{2, 3}, []int{2, 3}}, {"MatMul", []int{2, 3}, []int{4, 2}}, {"MatMul", []int{3, 2}, []int{1, 2}}} {
+				for _, api := range []string{"method", "func", "dot"} {
+					if api == "func" && mm[0].(string) != "Inner" {
+						continue
+					}
+					if api == "dot" && (mm[0].(string) == "Inner" || len(mm[2].([]int)) == 2 && mm[2].([]int)[0] == 1) {
+						continue // Dot dispatches on the operands' vector-likeness: (m,k) x (1,k) is a valid matrix-vector product there
+					}
+					in := mkInst("vhC09", map[string]interface{}{"dtype": "float64", "routine": mm[0], "sa": mm[1], "sb": mm[2], "la": "C", "lb": "C", "mode": "", "api": api, "mismatch": 1}, "routine", "sa", "sb", "api", "mismatch")
+					in.Ring = true
+					out = append(out, in)
+				}
+			}
 			return out
 		},
 	}
@@ -1455,11 +1470,11 @@ func init() {
 
 func init() {
 	props["C16"] = &propDef{
-		ID: "C16",
+		ID:       "C16",
 		Anchored: []string{"AsFortran", "CalcStridesColMajor", "DataOrder", "HasSameOrder", "setDataOrder", "prepDataVV", "copyDenseIter", "handleFuncOpts", "StdEng).MatMul", "StdEng).MatVecMul", "StdEng).Outer", "StackDense", "tensor.Copy", "colMajor", "IsColMajor"},
 		Bounds: map[string]interface{}{"method": "the harnesses of C01-C13 are re-run with each operand (and reuse/incr destination) independently column-major; their oracles are written over logical coordinates, so 'same logical result as the row-major run' is the same assertion",
 			"operations": "element access, slicing (symbolic triples), transposition programs, frame/alias/copy, iterators, arithmetic/comparison/unary with option modes, reductions and arg-reductions, products, concat/stack/repeat, shape calculators, reshape (follows the tensor's own data order)",
-			"shapes": "rank 1-3 (rank 4 in thorough)", "serialisation": "covered by C14 where applicable"},
+			"shapes":     "rank 1-3 (rank 4 in thorough)", "serialisation": "covered by C14 where applicable"},
 		Instances: func(tier string, seed int64) []Instance {
 			var out []Instance
 			n := 0
@@ -1718,10 +1733,10 @@ func init() {
 		KernelLevel: true,
 		Anchored:    []string{"execution.", "storage.", "MaskedEqual", "MaskedGreater", "MaskedLess", "array).Get", "array).Set", "native."},
 		Bounds: map[string]interface{}{"kernel_level": "every function of internal/execution/generic_*.go with a slice parameter whose name parses into (op, variant, dtype): symbolic slices of length 3 (4 with iterators: a contiguous and a lazily-transposed (2,2) access pattern), symbolic scalars, real FlatIterators; every cell of every argument compared with the type-generic table entry",
-			"dispatch_level": "public-API harnesses of C06/C11/C12/C08/C15 instantiated at EVERY element type the operation accepts, incl. iterator and incr variants (catches a reflect.Type case wired to the wrong kernel)",
-			"cross_type": "int8->16/32/64, int16->32/64, int32->64, uint likewise, float32->float64: + - x (and / % at 8->16 quick, all pairs with 60 s in thorough) agree after conversion when the wide result is representable; comparisons agree unconditionally",
-			"native_conversions": "package native Vector*/Matrix*/Tensor3*/Select* for all 16 element types on the contiguous layout (thorough: + F,T,S), shapes (3),(2,3),(3,1),(2,3,2),(2,2,3), every axis (+ rank 4, scalar, 1-dims, rank mismatches in thorough); elements symbolic",
-			"not_covered": "string kernels (ordering of symbolic strings is not encoded), reduce/map helper kernels taking function values (exercised through C08/C12), masked arg kernels (C15/C08)"},
+			"dispatch_level":     "public-API harnesses of C06/C11/C12/C08/C15 instantiated at EVERY element type the operation accepts, incl. iterator and incr variants (catches a reflect.Type case wired to the wrong kernel)",
+			"cross_type":         "int8->16/32/64, int16->32/64, int32->64, uint likewise, float32->float64: + - x (and / % at 8->16 quick, all pairs with 60 s in thorough) agree after conversion when the wide result is representable; comparisons agree unconditionally",
+			"native_conversions": "package native Vector*/Matrix*/Tensor3*/Select* and the reflect-based generic Vector/Matrix/Tensor3 for all 16 element types on the contiguous layout (thorough: + F,T,S), shapes (3),(2,3),(3,1),(2,3,2),(2,2,3), every axis (+ rank 4, scalar, 1-dims, rank mismatches in thorough); elements symbolic",
+			"not_covered":        "string kernels (ordering of symbolic strings is not encoded), reduce/map helper kernels taking function values (exercised through C08/C12), masked arg kernels (C15/C08)"},
 		Instances: func(tier string, seed int64) []Instance {
 			var out []Instance
 			n := 0
@@ -1819,7 +1834,7 @@ func init() {
 		ID:       "C19",
 		Anchored: []string{"BorrowInts", "ReturnInts", "BorrowBools", "ReturnBools", "borrowDense", "ReturnTensor", "borrowOpOpt", "returnOpOpt", "SetShape", "CloneTo", ").Clone", ").UT", ").RollAxis", "reuseCheckShape", ").TensorMul", "handleFuncOpts", "recycledDense"},
 		Bounds: map[string]interface{}{"caller_slices": "T / Transpose / UT / ReturnTensor after T, Reshape (also with the tensor's own shape), Sum/Max/Min(along), Repeat, At/SetAt, New(WithShape), TensorMul(axesA,axesB), RollAxis, Slice: argument cells unchanged after the call and after the follow-up, not reachable from tensor metadata, and never handed out by the int pool afterwards",
-			"histories": "programs of 3-9 steps over {new, lazy T, UT, Transpose, Reshape, safe/unsafe/reuse/incr Add, Sum, Clone, Materialize, row-view, Memset through a tensor or view, safe Apply, ReturnTensor, borrow-and-scribble on pooled ints} on up to 6 live tensors with symbolic elements; after EVERY step every live tensor's shape and elements equal its model",
+			"histories":  "programs of 3-9 steps over {new, lazy T, UT, Transpose, Reshape, safe/unsafe/reuse/incr Add, Sum, Clone, Materialize, row-view, Memset through a tensor or view, safe Apply, ReturnTensor, borrow-and-scribble on pooled ints} on up to 6 live tensors with symbolic elements; after EVERY step every live tensor's shape and elements equal its model",
 			"pool_model": "sync.Pool = LIFO stack per pool object (the item just returned is the next one handed out: the most aliasing-adversarial single schedule); channel pools are real code", "outside": "histories longer than 9 steps; other sync.Pool schedules (victim cache, per-P shards)"},
 		Assume: []string{"sync.Pool modelled as a LIFO stack; finalizers never run"},
 		Instances: func(tier string, seed int64) []Instance {
@@ -1876,6 +1891,12 @@ func init() {
 				"n0:2x3,t0,R0,n1:2x3,t1,n2:3x2,B,u1",
 				"n0:2x3x2,m01,m12,R1,n3:3x2,B",
 				"n0:2x2,n1:2x2,a012,a023,R2,a014,B,R3,n5:2x2",
+				// a clone of a lazily transposed tensor must own its saved access pattern: materialising, reshaping or recycling
+				// the clone may not take the source's saved shape/strides with it (seen at the source's next UT)
+				"n0:2x3,t0,c01,x1,B,u0",
+				"n0:2x3,t0,c01,r1:6,B,u0,B",
+				"n0:2x3x2,t0,c01,R1,n2:2x3x2,B,u0",
+				"n0:2x3,t0,c01,u1,B,x0",
 			}
 			if tier == "thorough" {
 				progs = append(progs,
@@ -1922,12 +1943,12 @@ func init() {
 		Anchored: []string{"Float64Engine", "Float32Engine", "WithEngine", "handleFuncOptsF64", "handleFuncOptsF32", "prepDataVSF64", "prepDataVSF32", "divmod", "denseTranspose", "StdEng).Transpose", ").fix",
 			"vecf64", "vecf32", "api_arith.go:FMA", "tensor.FMA", ").Inner"},
 		Bounds: map[string]interface{}{
-			"differential": "vhC20Diff: the same symbolic element values are given to tensors of the default engine and of Float64Engine/Float32Engine; outcome, returned-tensor identity relation, result elements and the final contents of every backing array (operands, destination, cells outside view windows) are asserted bit-equal. ops Add (specialised kernel), Sub/Mul/Div (embedded default kernels reached through the specialised engine's dispatch), FMA, FMAScalar, Inner, MatMul, MatVecMul, Outer; forms tensor-tensor, tensor-scalar, scalar-tensor; modes safe/unsafe/reuse/incr/reuse-of-first-operand; layouts C,F,T,S,SS per operand and destination; shapes rank 1-3 (dims<=3)",
-			"oracle":       "the C06/C07 and C09 oracle harnesses re-run with every tensor carrying the specialised engine (cfg engine), the C03 programs under the inplacetranspose tag and with the specialised engines, the C01/C03/C05 index harnesses under the noasm tag (the Go body of divmod is then the executed code)",
-			"asm":          "divmod_amd64.s is parsed from the tree and encoded instruction by instruction (MOVQ, CMPQ, JEQ, JMP, CQO, IDIVQ with #DE, NEGQ, RET) over 64-bit vectors: quotient and remainder equal Go's a/b and a%b for every a and every b != 0, with no divide error",
-			"float_model":  "FMA/Inner/products in ring mode (floats as mathematical integers: exactness of the index/accumulation structure, not rounding); Add/Sub/Mul/Div in the FP theory",
+			"differential":          "vhC20Diff: the same symbolic element values are given to tensors of the default engine and of Float64Engine/Float32Engine; outcome, returned-tensor identity relation, result elements and the final contents of every backing array (operands, destination, cells outside view windows) are asserted bit-equal. ops Add (specialised kernel), Sub/Mul/Div (embedded default kernels reached through the specialised engine's dispatch), FMA, FMAScalar, Inner, MatMul, MatVecMul, Outer; forms tensor-tensor, tensor-scalar, scalar-tensor; modes safe/unsafe/reuse/incr/reuse-of-first-operand; layouts C,F,T,S,SS per operand and destination; shapes rank 1-3 (dims<=3)",
+			"oracle":                "the C06/C07 and C09 oracle harnesses re-run with every tensor carrying the specialised engine (cfg engine), the C03 programs under the inplacetranspose tag and with the specialised engines, the C01/C03/C05 index harnesses under the noasm tag (the Go body of divmod is then the executed code)",
+			"asm":                   "divmod_amd64.s is parsed from the tree and encoded instruction by instruction (MOVQ, CMPQ, JEQ, JMP, CQO, IDIVQ with #DE, NEGQ, RET) over 64-bit vectors: quotient and remainder equal Go's a/b and a%b for every a and every b != 0, with no divide error",
+			"float_model":           "FMA/Inner/products in ring mode (floats as mathematical integers: exactness of the index/accumulation structure, not rounding); Add/Sub/Mul/Div in the FP theory",
 			"engine_dtype_mismatch": "a float64 engine on float32 data (and vice versa) may refuse; a refusal must leave every operand untouched",
-			"outside":      "operands of different shapes (the specialised Add does not re-check shapes; the default engine refuses them), sparse operands, engines other than the two shipped ones, GOARCH other than amd64 for the assembly",
+			"outside":               "operands of different shapes (the specialised Add does not re-check shapes; the default engine refuses them), sparse operands, engines other than the two shipped ones, GOARCH other than amd64 for the assembly",
 		},
 		Instances: func(tier string, seed int64) []Instance {
 			var out []Instance
@@ -2135,8 +2156,8 @@ func init() {
 			"serialization/pb", "serialization/fb", "binaryWriter", "binaryReader"},
 		Bounds: map[string]interface{}{
 			"round_trip": "the real encoder and the real decoder run back to back over a byte-accurate stream; element values (and mask bits) are symbolic over their full range incl. non-finite floats; dtype/shape/layout/mask presence are instantiated",
-			"formats": "npy: header text concrete, element bytes symbolic through a little-endian model of encoding/binary; pb: the generated gogo-protobuf Marshal/Unmarshal code of internal/serialization/pb is executed; fb: the flatbuffers builder and table readers (github.com/google/flatbuffers/go) are executed; gob and csv: the library's field/record logic is executed, encoding/gob and encoding/csv are FIFO models (assumed lossless), fmt %v / strconv.Parse* of a symbolic number are an injective uninterpreted string and its inverse (assumed to round-trip values; NaN payloads are not compared for csv)",
-			"shapes":  "rank 0-3 (rank 4 in thorough) incl. scalars, (1,n), (n,1), length-one axes", "layouts": "C, F (column-major), T (lazily transposed), S (sliced view)", "masks": "every mask bit symbolic, through SetMaskAt in logical coordinates",
+			"formats":    "npy: header text concrete, element bytes symbolic through a little-endian model of encoding/binary; pb: the generated gogo-protobuf Marshal/Unmarshal code of internal/serialization/pb is executed; fb: the flatbuffers builder and table readers (github.com/google/flatbuffers/go) are executed; gob and csv: the library's field/record logic is executed, encoding/gob and encoding/csv are FIFO models (assumed lossless), fmt %v / strconv.Parse* of a symbolic number are an injective uninterpreted string and its inverse (assumed to round-trip values; NaN payloads are not compared for csv)",
+			"shapes":     "rank 0-3 (rank 4 in thorough) incl. scalars, (1,n), (n,1), length-one axes", "layouts": "C, F (column-major), T (lazily transposed), S (sliced view)", "masks": "every mask bit symbolic, through SetMaskAt in logical coordinates",
 			"dtypes":  "all 16 dtypes with a Go kind the formats know (bool, ints, uints, floats, complex, string); a refusal (error) is accepted, a stream that reads back differently or cannot be read back is a violation",
 			"outside": "sparse tensors (sparse_io.go has no encoder), interoperability with real NumPy / protobuf / flatbuffers readers (only self round trips), csv formats other than %v, I/O errors of the underlying writer/reader",
 		},
@@ -2193,12 +2214,12 @@ func init() {
 		Anchored: []string{"borrowDense", "ReturnTensor", "BorrowInts", "ReturnInts", "borrowHeader", "returnHeader", "BorrowBools", "borrowOpOpt", "returnOpOpt", "scalarPool", "allocScalar", "freeScalar",
 			"StdEng).Dot", "StdEng).MatMul", "StdEng).MatVecMul", "StdEng).Inner", "StdEng).Outer", ").UT", ").T", ").Clone", ").Materialize", ").Slice", ").At", "whichblas"},
 		Bounds: map[string]interface{}{
-			"reduction": "one goroutine's program (one read-only operation of the menu) is executed symbolically after a barrier; every object that exists at the barrier and is reachable from the shared operands or from a package global is shared. Obligations (at the access, over every feasible path, elements symbolic): no store into a shared operand (not even a temporary one); no store into library-global state outside a mutex; across the menu, nothing read outside a mutex is written by any menu operation; no object is put into a pool (sync.Pool or channel pool) in which it is already parked (it would be handed to two goroutines). Races are pairwise and need a write, so these three facts exclude a race between any number of goroutines running menu operations on shared read-only operands and private tensors, and with no shared location written each goroutine computes its sequential result.",
-			"menu":      "At, Slice, Slice+At, iteration, Add, AddScalar, Mul, Gt, ElEq(as same type), Neg, Sqrt, Sum (all / axis), Max, Argmax, Argmin(all), MatMul, MatVecMul, Inner, Outer, Dot (mm, mv, vm, vv), TensorMul, Clone, Materialize, SafeT, Transpose/T (api, copying), Concat, Stack, Repeat, Reshape of a clone, Apply, Eq, CopyTo/Copy into a private tensor, Norm (unordered, Frobenius, 1, 2 along an axis), Outer into a column-major destination, every tensor-scalar arithmetic / comparison method (both operand orders); and on private clones: Add with reuse / reuse of another shape / incr / unsafe, scalar Mul and Gt with reuse, T+UT, Transpose, Reshape, SetAt, Zero of a slice, ReturnTensor",
-			"operands":  "float64, shapes <= (2,3)/(3,2), first operand C / lazily transposed / sliced view, second operand C / transposed / sliced",
-			"atomic_by_contract": "sync.Pool Get/Put, channel send/receive/select, sync.Mutex - the executor's intrinsics; their internals and the Go memory model are trusted",
+			"reduction":           "one goroutine's program (one read-only operation of the menu) is executed symbolically after a barrier; every object that exists at the barrier and is reachable from the shared operands or from a package global is shared. Obligations (at the access, over every feasible path, elements symbolic): no store into a shared operand (not even a temporary one); no store into library-global state outside a mutex; across the menu, nothing read outside a mutex is written by any menu operation; no object is put into a pool (sync.Pool or channel pool) in which it is already parked (it would be handed to two goroutines). Races are pairwise and need a write, so these three facts exclude a race between any number of goroutines running menu operations on shared read-only operands and private tensors, and with no shared location written each goroutine computes its sequential result.",
+			"menu":                "At, Slice, Slice+At, iteration, Add, AddScalar, Mul, Gt, ElEq(as same type), Neg, Sqrt, Sum (all / axis), Max, Argmax, Argmin(all), MatMul, MatVecMul, Inner, Outer, Dot (mm, mv, vm, vv), TensorMul, Clone, Materialize, SafeT, Transpose/T (api, copying), Concat, Stack, Repeat, Reshape of a clone, Apply, Eq, CopyTo/Copy into a private tensor, Norm (unordered, Frobenius, 1, 2 along an axis), Outer into a column-major destination, every tensor-scalar arithmetic / comparison method (both operand orders); and on private clones: Add with reuse / reuse of another shape / incr / unsafe, scalar Mul and Gt with reuse, T+UT, Transpose, Reshape, SetAt, Zero of a slice, ReturnTensor",
+			"operands":            "float64, shapes <= (2,3)/(3,2), first operand C / lazily transposed / sliced view, second operand C / transposed / sliced",
+			"atomic_by_contract":  "sync.Pool Get/Put, channel send/receive/select, sync.Mutex - the executor's intrinsics; their internals and the Go memory model are trusted",
 			"native_confirmation": "a counterexample is replayed as 4 goroutines x 25 runs of the operation over the same operands under the race detector (go test -race); only a reported DATA RACE counts",
-			"outside":   "programs of more than one operation per goroutine and objects retained after being handed to a pool (C19 decides the bounded histories), GOMAXPROCS / scheduler effects (the claim is schedule-independent by construction), formatting (fmt), BLAS implementations other than the default gonum one (blas.Use)",
+			"outside":             "programs of more than one operation per goroutine and objects retained after being handed to a pool (C19 decides the bounded histories), GOMAXPROCS / scheduler effects (the claim is schedule-independent by construction), formatting (fmt), BLAS implementations other than the default gonum one (blas.Use)",
 		},
 		Assume: []string{"an object taken from a pool was not retained by whoever put it there (C19)", "package initialisers have completed before goroutines start"},
 		Instances: func(tier string, seed int64) []Instance {
@@ -2271,6 +2292,7 @@ func nativeInstances(tier string, prop string) []Instance {
 		axis  int
 	}
 	cases := []cs{{"vector", []int{3}, 0}, {"matrix", []int{2, 3}, 0}, {"matrix", []int{3, 1}, 0}, {"tensor3", []int{2, 3, 2}, 0}, {"tensor3", []int{2, 2, 3}, 0},
+		{"gvector", []int{3}, 0}, {"gmatrix", []int{2, 3}, 0}, {"gtensor3", []int{2, 3, 2}, 0}, {"gtensor3", []int{2, 2, 3}, 0}, // generic.go (reflect-based)
 		{"select", []int{3}, 0}, {"select", []int{2, 3}, 0}, {"select", []int{2, 3}, 1}, {"select", []int{2, 3, 2}, 0}, {"select", []int{2, 3, 2}, 1}, {"select", []int{2, 2, 3}, 2}}
 	if tier == "thorough" {
 		cases = append(cases, cs{"vector", []int{1}, 0}, cs{"matrix", []int{1, 4}, 0}, cs{"matrix", []int{3, 3}, 0}, cs{"tensor3", []int{3, 1, 2}, 0}, cs{"tensor3", []int{1, 3, 4}, 0},
